@@ -25,22 +25,22 @@ frame_len!(u2f_frame_len_73, 73);
 // ---- C17: a well-formed frame parses to that request (paired with V-U2F's ensures#register / #authenticate / #version)
 use passkey_types::u2f::{Command, RequestPayload};
 
-fn wf_frame<const N: usize>(ins: u8) -> [u8; N] {
+// CLA INS P1 P2 | 00 LC1 LC2 | data (nc bytes) | [LE1 LE2]: N = 7 + nc, or 7 + nc + 2 with the optional Le (symbolic)
+fn wf_frame<const N: usize>(ins: u8, nc: usize) -> [u8; N] {
     let mut buf: [u8; N] = kani::any();
-    let len = (N - 7) as u32;
     buf[0] = 0;
     buf[1] = ins;
-    buf[3] = (len >> 24) as u8;
-    buf[4] = (len >> 16) as u8;
-    buf[5] = (len >> 8) as u8;
-    buf[6] = len as u8;
+    buf[3] = 0;
+    buf[4] = 0;
+    buf[5] = (nc >> 8) as u8;
+    buf[6] = nc as u8;
     buf
 }
 
 #[kani::proof]
 #[kani::unwind(80)]
 fn u2f_wf_register() {
-    let buf = wf_frame::<71>(1);
+    let buf = wf_frame::<71>(1, 64);
     let k: usize = kani::any();
     kani::assume(k < 32);
     match Request::try_from(&buf[..]) {
@@ -55,8 +55,28 @@ fn u2f_wf_register() {
 
 #[kani::proof]
 #[kani::unwind(80)]
+fn u2f_wf_register_le() {
+    let buf = wf_frame::<73>(1, 64);
+    let k: usize = kani::any();
+    kani::assume(k < 32);
+    match Request::try_from(&buf[..]) {
+        Ok(Request { cla: 0, ins: Command::Register, p1, data_len: 64, data: RequestPayload::Register(rr) }) => {
+            assert!(p1 == buf[2]);
+            assert!(rr.challenge[k] == buf[7 + k]);
+            assert!(rr.application[k] == buf[39 + k]);
+        }
+        _ => panic!("well-formed register frame with Le not parsed to a register request"),
+    }
+}
+
+#[kani::proof]
+#[kani::unwind(80)]
 fn u2f_wf_version() {
-    let buf = wf_frame::<7>(3);
+    let mut buf: [u8; 7] = kani::any(); // 00 03 P1 00 | 00 LE1 LE2: no request data, so LC is omitted and any Le may follow
+    buf[0] = 0;
+    buf[1] = 3;
+    buf[3] = 0;
+    buf[4] = 0;
     match Request::try_from(&buf[..]) {
         Ok(Request { cla: 0, ins: Command::Version, data_len: 0, data: RequestPayload::Version, .. }) => {}
         _ => panic!("well-formed version frame not parsed to a version request"),
@@ -68,7 +88,7 @@ macro_rules! wf_auth {
         #[kani::proof]
         #[kani::unwind(80)]
         fn $name() {
-            let mut buf = wf_frame::<{ 7 + 65 + $kh }>(2);
+            let mut buf = wf_frame::<{ 7 + 65 + $kh }>(2, 65 + $kh);
             kani::assume(buf[2] == 3 || buf[2] == 7 || buf[2] == 8);
             buf[71] = $kh as u8;
             let k: usize = kani::any();
